@@ -1,13 +1,221 @@
 //! C04: emitted DirectX HLSL is accepted by the front end and is a fixpoint.
 //!
-//! request : C04.fix \t <gen:<seed> | disk:<root>|<entry> | text:<hex of source>>
+//! request : C04.fix \t <gen:<seed> | decl:<seed> | lit:<seed> | disk:<root>|<entry> | text:<hex of source>>
+//!           `lit:<seed>` = the literal stream: a program whose initialisers, arguments, array sizes and operands are
+//!           numeric literals of every suffix (none, `f`, `h`, `L`, `u`, hex) — long decimal constants (20–30 significant
+//!           digits), values whose shortest decimal has 15–17 digits, exponent forms, negative zero, subnormal / huge
+//!           magnitudes, integers next to the limits of `int` / `uint` — so that the byte comparison of the two
+//!           generations exercises `format_literal` ∘ `literal_float` / `literal_int` (the C10 leg of the composition)
 //! observe : first-generation digest, or `reject:<stage>` when the source itself is not accepted
 //! oracle  : compile(P, dx, no-pipeline) = G1; compile(G1.text, dx, no-pipeline) must succeed and be
 //!           byte-identical to G1, with every resource on the same binding slot (group, name, location, count).
+mod reelab;
+
 use crate::compile_util::*;
 use crate::declgen;
 use crate::progen::*;
 use crate::util::*;
+
+
+// ------------------------------------------------------------------------------------------------
+// the literal stream
+
+/// decimal expansion of p/q with `digits` significant digits (p < q * 10^6), as `int.frac`
+fn long_division(mut p: u64, q: u64, digits: usize) -> String {
+    let int = p / q;
+    p %= q;
+    let mut s = format!("{}.", int);
+    let mut significant = if int > 0 { int.to_string().len() } else { 0 };
+    let mut started = int > 0;
+    let mut n = 0;
+    while significant < digits && n < 60 {
+        p *= 10;
+        let d = p / q;
+        p %= q;
+        s.push((b'0' + d as u8) as char);
+        if d != 0 {
+            started = true;
+        }
+        if started {
+            significant += 1;
+        }
+        n += 1;
+    }
+    s
+}
+
+#[derive(Clone, Copy, PartialEq, Eq)]
+enum LTy {
+    Double,
+    Float,
+    Half,
+    Int,
+    UInt,
+}
+
+impl LTy {
+    fn name(self) -> &'static str {
+        match self {
+            LTy::Double => "double",
+            LTy::Float => "float",
+            LTy::Half => "half",
+            LTy::Int => "int",
+            LTy::UInt => "uint",
+        }
+    }
+    fn pass(self) -> &'static str {
+        match self {
+            LTy::Double => "pd",
+            LTy::Float => "pf",
+            LTy::Half => "ph",
+            LTy::Int => "pi",
+            LTy::UInt => "pu",
+        }
+    }
+}
+
+/// one numeric literal together with the type of the variable / parameter it is used for
+fn gen_literal(rng: &mut Rng, hist: &mut Hist) -> (String, LTy) {
+    let fsuffix = |rng: &mut Rng| -> (&'static str, LTy) {
+        match rng.below(8) {
+            0 | 1 | 2 => ("L", LTy::Double),
+            3 => ("", LTy::Double), // untyped literal converted to double
+            4 | 5 => ("f", LTy::Float),
+            6 => ("", LTy::Float),
+            _ => ("h", LTy::Half),
+        }
+    };
+    match rng.below(9) {
+        0 | 1 => {
+            // a rational with a small denominator written with 20–30 significant digits (maths-header style)
+            hist.add("lit:long-decimal");
+            let q = rng.range(3, 97) as u64;
+            let p = rng.range(1, 3 * q as i64) as u64;
+            let digits = rng.range(20, 30) as usize;
+            let (sfx, ty) = fsuffix(rng);
+            (format!("{}{}", long_division(p, q, digits), sfx), ty)
+        }
+        2 => {
+            // a random double in a moderate range, written with its shortest round-trip digits (15–17 of them)
+            hist.add("lit:shortest-double");
+            let exp = 1023 - 40 + rng.below(80);
+            let bits = (exp << 52) | (rng.next() & ((1u64 << 52) - 1));
+            let v = f64::from_bits(bits);
+            let text = format!("{}", v);
+            let text = if text.contains('.') { text } else { format!("{}.0", text) };
+            let (sfx, ty) = if rng.chance(3, 4) { ("L", LTy::Double) } else { ("", LTy::Double) };
+            (format!("{}{}", text, sfx), ty)
+        }
+        3 => {
+            // the same value with more digits than needed (exact decimal expansion cut at 25 places)
+            hist.add("lit:over-long-double");
+            let exp = 1023 - 8 + rng.below(16);
+            let bits = (exp << 52) | (rng.next() & ((1u64 << 52) - 1));
+            let v = f64::from_bits(bits);
+            (format!("{:.25}L", v), LTy::Double)
+        }
+        4 => {
+            // exponent forms, small and large magnitudes
+            hist.add("lit:exponent");
+            let forms: [(&str, LTy); 22] = [
+                ("1e10", LTy::Float), ("2.5e-3f", LTy::Float), ("1.0e+38f", LTy::Float), ("6.02214076e23", LTy::Double),
+                ("1e300L", LTy::Double), ("4.9e-324L", LTy::Double), ("1e-45f", LTy::Float), ("3.4028235e38f", LTy::Float),
+                ("1.7976931348623157e308L", LTy::Double), ("2.2250738585072014e-308L", LTy::Double),
+                ("1.17549435e-38f", LTy::Float), ("9.999999999999999e22L", LTy::Double), ("1e22L", LTy::Double),
+                ("1e23L", LTy::Double), ("8.98846567431158e307L", LTy::Double), ("1e-7h", LTy::Half), ("6.1e-5h", LTy::Half),
+                ("65504.0h", LTy::Half), ("123456789012345678.0L", LTy::Double), ("0.1e1f", LTy::Float),
+                ("9007199254740993.0L", LTy::Double), ("16777217.0f", LTy::Float),
+            ];
+            let (t, ty) = *rng.pick(&forms);
+            (t.to_string(), ty)
+        }
+        5 => {
+            hist.add("lit:negative-zero");
+            let forms: [(&str, LTy); 5] =
+                [("-0.0", LTy::Float), ("-0.0f", LTy::Float), ("-0.0h", LTy::Half), ("-0.0L", LTy::Double), ("-0.0", LTy::Double)];
+            let (t, ty) = *rng.pick(&forms);
+            (t.to_string(), ty)
+        }
+        6 => {
+            // short decimals of every suffix
+            hist.add("lit:short-decimal");
+            let a = rng.below(1000);
+            let b = rng.below(10000);
+            let (sfx, ty) = fsuffix(rng);
+            (format!("{}.{}{}", a, b, sfx), ty)
+        }
+        7 => {
+            hist.add("lit:int-limit");
+            let forms: [(&str, LTy); 16] = [
+                ("2147483647", LTy::Int), ("-2147483648", LTy::Int), ("-2147483647", LTy::Int), ("0x7fffffff", LTy::Int),
+                ("2147483648", LTy::UInt), ("4294967295", LTy::UInt), ("4294967295u", LTy::UInt), ("0xffffffffu", LTy::UInt),
+                ("0xffffffff", LTy::UInt), ("-1", LTy::UInt), ("4294967294u", LTy::UInt), ("0", LTy::Int), ("0u", LTy::UInt),
+                ("2147483647", LTy::Float), ("4294967295u", LTy::Float), ("16777217", LTy::Float),
+            ];
+            let (t, ty) = *rng.pick(&forms);
+            (t.to_string(), ty)
+        }
+        _ => {
+            hist.add("lit:int-random");
+            if rng.chance(1, 2) {
+                (format!("{}", rng.next() as u32 as i32), LTy::Int)
+            } else if rng.chance(1, 2) {
+                (format!("{}u", rng.next() as u32), LTy::UInt)
+            } else {
+                (format!("0x{:x}", rng.next() as u32), LTy::UInt)
+            }
+        }
+    }
+}
+
+/// the program of the literal stream: literals as global and local initialisers, call arguments, operands and array sizes
+pub fn literal_program(rng: &mut Rng) -> String {
+    let mut hist = Hist::default();
+    literal_program_h(rng, &mut hist)
+}
+
+fn literal_program_h(rng: &mut Rng, hist: &mut Hist) -> String {
+    let mut s = String::new();
+    for t in [LTy::Double, LTy::Float, LTy::Half, LTy::Int, LTy::UInt] {
+        s.push_str(&format!("{} {}({} a) {{ return a; }}\n", t.name(), t.pass(), t.name()));
+    }
+    let nglob = 2 + rng.below(4);
+    for i in 0..nglob {
+        let (l, t) = gen_literal(rng, hist);
+        s.push_str(&format!("static const {} g{} = {};\n", t.name(), i, l));
+    }
+    let sizes = ["1", "2u", "0x10", "16u", "3", "64", "255u", "0x7f", "2 + 2", "4 * 4u"];
+    s.push_str(&format!("static float garr[{}];\n", rng.pick(&sizes)));
+    s.push_str("void f() {\n");
+    let nloc = 4 + rng.below(8);
+    for i in 0..nloc {
+        let (l, t) = gen_literal(rng, hist);
+        match rng.below(5) {
+            0 | 1 => s.push_str(&format!("    {} v{} = {};\n", t.name(), i, l)),
+            2 => s.push_str(&format!("    {} v{} = {}({});\n", t.name(), i, t.pass(), l)),
+            3 => {
+                let (l2, t2) = gen_literal(rng, hist);
+                s.push_str(&format!("    {} v{} = {} + {}({});\n", t.name(), i, l, t2.pass(), l2));
+            }
+            _ => {
+                s.push_str(&format!("    {} v{};\n    v{} = {};\n", t.name(), i, i, l));
+            }
+        }
+    }
+    s.push_str(&format!("    float arr[{}];\n", rng.pick(&sizes)));
+    s.push_str("}\n");
+    s
+}
+
+/// fixed programs tried first when a proof obligation of a cited leg no longer checks (`search` of checks/c04.py)
+pub fn literal_search_sources() -> Vec<String> {
+    vec![
+        "static const double a = 0.93333333333333333333L;\nstatic const double b = 0.20833333333333333333L;\nstatic const double c = 0.090909090909090909091L;\nstatic const double d = 0.23333333333333333333L;\n".to_string(),
+        "double f() { double x = 0.3333333333333333148296L; double y = 0.1; double z = 6.02214076e23; return x + y + z + 123456789012345678.0L; }\n".to_string(),
+        "float f() { float a = 0.1; float b = 16777217.0f; float c = 1e-45f; float d = 3.4028235e38f; float e = -0.0f; half h = 0.1h; return a + b + c + d + e + (float)h; }\n".to_string(),
+        "int f() { int a = 2147483647; int b = -2147483648; uint c = 4294967295u; uint d = 0xffffffff; uint e = -1; float arr[0x10]; return a + b + (int)(c + d + e); }\n".to_string(),
+    ]
+}
 
 fn first_generation(id: &str) -> Option<CompileOutcome> {
     if let Some(seed) = id.strip_prefix("gen:") {
@@ -17,6 +225,9 @@ fn first_generation(id: &str) -> Option<CompileOutcome> {
     } else if let Some(seed) = id.strip_prefix("decl:") {
         let seed: u64 = seed.parse().ok()?;
         Some(compile_src(&declgen::gen_source(&mut Rng::new(seed)), Tgt::Dx, Mode::NoPipeline))
+    } else if let Some(seed) = id.strip_prefix("lit:") {
+        let seed: u64 = seed.parse().ok()?;
+        Some(compile_src(&literal_program(&mut Rng::new(seed)), Tgt::Dx, Mode::NoPipeline))
     } else if let Some(rest) = id.strip_prefix("disk:") {
         let (root, entry) = rest.split_once('|')?;
         Some(compile_disk(root, entry, Tgt::Dx, Mode::NoPipeline))
@@ -91,6 +302,8 @@ fn dump(id: &str) {
         declgen::gen_source(&mut Rng::new(seed.parse().unwrap()))
     } else if let Some(seed) = id.strip_prefix("gen:") {
         render(&gen_program(&mut Rng::new(seed.parse().unwrap()), &GenOpts::default()), &|_| true)
+    } else if let Some(seed) = id.strip_prefix("lit:") {
+        literal_program(&mut Rng::new(seed.parse().unwrap()))
     } else {
         String::new()
     };
@@ -113,10 +326,36 @@ pub fn run(args: &Args, out: &mut Out) {
         dump(&args.extra[1]);
         return;
     }
+    if args.extra.first().map(|s| s == "source").unwrap_or(false) {
+        // `harness c04 source <id>`: the source text of a generated request (used by the shrinker of checks/c04.py)
+        let id = &args.extra[1];
+        let src = if let Some(seed) = id.strip_prefix("decl:") {
+            declgen::gen_source(&mut Rng::new(seed.parse().unwrap_or(0)))
+        } else if let Some(seed) = id.strip_prefix("gen:") {
+            render(&gen_program(&mut Rng::new(seed.parse().unwrap_or(0)), &GenOpts::default()), &|_| true)
+        } else if let Some(seed) = id.strip_prefix("lit:") {
+            literal_program(&mut Rng::new(seed.parse().unwrap_or(0)))
+        } else if let Some(h) = id.strip_prefix("text:") {
+            String::from_utf8_lossy(&unhex(h).unwrap_or_default()).to_string()
+        } else {
+            String::new()
+        };
+        print!("{}", src);
+        return;
+    }
+    if args.extra.first().map(|s| s == "search-requests").unwrap_or(false) {
+        for src in literal_search_sources() {
+            println!("C04.fix\ttext:{}", hex(src.as_bytes()));
+        }
+        return;
+    }
     if let Some(lines) = args.request_lines() {
         for line in lines {
             if let Some(id) = line.strip_prefix("C04.fix\t") {
                 run_one(id, out, &mut hist);
+            } else if let Some(rest) = line.strip_prefix("C04.reelab\t").or_else(|| line.strip_prefix("C04.accept\t")) {
+                let src = reelab::unescape(rest.split('\t').next().unwrap_or(""));
+                reelab::run_source(&src, out, &mut hist);
             }
         }
         out.stat(&format!("{{\"mode\":\"replay\",\"hist\":{}}}", hist.json()));
@@ -131,6 +370,14 @@ pub fn run(args: &Args, out: &mut Out) {
     for _ in 0..n / 3 {
         run_one(&format!("gen:{}", rng.next() >> 16), out, &mut hist);
     }
+    // the literal stream (its own distribution in the statistics)
+    let nlit = n / 2;
+    let mut lit_hist = Hist::default();
+    for _ in 0..nlit {
+        let seed = rng.next() >> 16;
+        let _ = literal_program_h(&mut Rng::new(seed), &mut lit_hist);
+        run_one(&format!("lit:{}", seed), out, &mut hist);
+    }
     let corpus = repo_corpus(&repo);
     let take = if args.thorough() { corpus.len() } else { corpus.len().min(31) };
     let step = (corpus.len() / take.max(1)).max(1);
@@ -139,5 +386,15 @@ pub fn run(args: &Args, out: &mut Out) {
             run_one(&format!("disk:{}|{}", root, entry), out, &mut hist);
         }
     }
-    out.stat(&format!("{{\"generated\":{},\"hist\":{}}}", n + n / 3, hist.json()));
+    // the re-elaboration stream: second-generation IR against first-generation IR, node by node
+    let mut re_hist = Hist::default();
+    reelab::run(args, out, &mut re_hist);
+    out.stat(&format!("{{\"stream\":\"reelab\",\"hist\":{}}}", re_hist.json()));
+    out.stat(&format!(
+        "{{\"generated\":{},\"literal_programs\":{},\"literal_kinds\":{},\"hist\":{}}}",
+        n + n / 3,
+        nlit,
+        lit_hist.json(),
+        hist.json()
+    ));
 }
